@@ -33,7 +33,7 @@ SPEC = {
                   "toolchain program = exactly the valid known Go versions not older than the least minimum of its "
                   "records, of a module program = the padded list of such proxy versions; padded lists are supersets, "
                   "sorted and duplicate-free. Unbounded sizes; no axioms.",
-    "level_note": "Oracles are theorem premises, not axioms: strconv.ParseFloat/FormatFloat (the record must survive "
+    "level_note": "FINDING (known: class pad-panic): padVersions is partial - it panics when the latest release has a component above the int range (valid semver v9223372036854775808.0.0; theorem C17_pad_total_refuted, C17_pad_defined_iff names the class); pad_superset/sorted/nodup are about the lists that are produced. Oracles are theorem premises, not axioms: strconv.ParseFloat/FormatFloat (the record must survive "
                   "them, which excludes only NaNs with a non-canonical payload), go/version and semver IsValid/Compare "
                   "(total preorder: transitive, total; antisymmetric for sortedness), semver.Canonical fixes "
                   "vX.Y.Z and vX.Y.Z-<pattern> (for pad_nodup). strconv.ParseInt(s,10,64) and TrimSpace/TrimRightFunc "
